@@ -32,6 +32,10 @@ fn val_from_json(v: &Value, style: IdStyle) -> Val {
             val_of(&DataValue::String(s.clone()), style)
         }
         Value::Array(a) => Val { t: "list".into(), s: String::new(), n: 0, l: a.iter().map(|x| val_from_json(x, style)).collect() },
+        // a string value that is an IRI is exported as a node { "id": iri }: the same content
+        Value::Object(o) if o.len() == 1 && o.get("id").map(|x| x.is_string()).unwrap_or(false) => {
+            val_of(&DataValue::String(o["id"].as_str().unwrap().to_string()), style)
+        }
         Value::Object(_) => Val { t: "object".into(), s: format!("?{}", v), n: 0, l: vec![] },
     }
 }
